@@ -289,6 +289,9 @@ def r1(ctx, F, rule, sfx):
     spec = spec_poly()
     ctx.check(rule, 'determinant-identity' + sfx, poly == spec, 'returned sign of a polynomial with %d terms; difference to the lifted 4x4 determinant has %d terms' % (len(poly.num), len((poly - spec).num)),
               'identically det[(b-a,|b-a|^2) (c-a,..) (d-a,..) (v-a,..)]', w, key_extra='det')
+    # the sign is taken of the EXACT value: signum in the ring, then the conversion (f64::signum(+0.0) is 1.0: converting first turns a tie into "outside")
+    if chain and chain[0] != 'match-discriminant' and 'discr-cast' not in chain:
+        ctx.check(rule, 'sign-taken-before-conversion' + sfx, chain in (['to_f64', 'signum'], ['value', 'to_f64', 'signum']), ' <- '.join(chain), 'to_f64(signum(det)): zero stays zero', w, key_extra='sign-chain')
     # only asserts/overflow checks branch: the program is straight-line in the ring (unknown calls: only the sign extraction)
     other = [k for k in ip.unknown_calls if not any(x in k for x in ('signum', 'to_f64', 'sign', 'value'))]
     ctx.check(rule, 'straight-line-ring-program' + sfx, not other, 'uninterpreted calls: %s' % (sorted(ip.unknown_calls) or 'none'), 'only the sign extraction is outside the ring', w, key_extra='calls')
